@@ -23,7 +23,8 @@ THEOREMS = [
 ]
 RULE = ("seeded generator over classes {gaussian with |r| in [0,0.3), [0.3,0.75), [0.75,0.925), [0.925,1) of both "
         "signs incl. values within 1e-3..1e-6 of the thresholds, zero covariance, far tails (+-40 sigma), variances "
-        "1e-2..1e2, tiny covariance matrices (variances 1e-12..1e-6 at correlations up to 0.9999), shifted means} each evaluated at the four corners of a random box in one vectorised call; "
+        "1e-2..1e2, tiny covariance matrices (variances 1e-12..1e-6 at correlations up to 0.9999), small variances 1e-4..0.2 at "
+        "0.85 <= |r| < 0.925, both coordinates 38..150 sd and 300..1e4 sd out in every quadrant at |r| >= 0.925, shifted means} each evaluated at the four corners of a random box in one vectorised call; "
         "{uniform kernel on a dyadic grid (exact) and on random doubles}; {norm_cdf}.  One corner per Gaussian case, "
         "every uniform / norm_cdf case is certified inside Coq against the model (1e-9 / exact / 1e-10); the first "
         "Gaussian case(s) of every class and every corpus witness are also certified inside Coq against Plackett's "
@@ -60,7 +61,7 @@ SQ2 = math.sqrt(2.0)
 
 
 # ---------------------------------------------------------------------------------- generators
-def _gauss_case(rng, cls, r=None, scale=None, tail=False):
+def _gauss_case(rng, cls, r=None, scale=None, tail=False, far=None):
     if r is None:
         lo, hi = {"g_mid3": (0.0, 0.3), "g_mid6": (0.3, 0.75), "g_mid10": (0.75, 0.925),
                   "g_high": (0.925, 0.9999)}[cls]
@@ -78,6 +79,10 @@ def _gauss_case(rng, cls, r=None, scale=None, tail=False):
     if scale == "unit":
         sxx = syy = 1.0
         mx = my = 0.0
+    elif scale == "small":                       # variances well below 1: |covariance| << |correlation|
+        sxx = 10 ** rng.uniform(-4, math.log10(0.2))
+        syy = 10 ** rng.uniform(-4, math.log10(0.2))
+        mx, my = rng.choice([(0.0, 0.0), (rng.uniform(-1, 1), rng.uniform(0, 1))])
     elif scale == "tiny":                        # covariance entries far below any absolute "is zero" test
         sxx = 10 ** rng.uniform(-12, -6)
         syy = sxx * 10 ** rng.uniform(-1, 1)
@@ -88,9 +93,17 @@ def _gauss_case(rng, cls, r=None, scale=None, tail=False):
         mx, my = (rng.uniform(-3, 3), rng.uniform(-3, 3)) if scale == "shift" else (0.0, 0.0)
     sxy = r * math.sqrt(sxx * syy)
     sx, sy = math.sqrt(sxx), math.sqrt(syy)
-    if tail:
+    if tail and far is None and rng.random() < 0.3:   # one coordinate far, the other moderate or far
         za = rng.choice([-40.0, 40.0, rng.uniform(-2, 2)])
         zb = rng.choice([-40.0, 40.0]) if abs(za) < 10 else rng.choice([-40.0, 40.0, rng.uniform(-2, 2)])
+        z = [za, za + rng.uniform(0.1, 1), zb, zb + rng.uniform(0.1, 1)]
+    elif tail:                                   # both coordinates far: 38..150 sd (x: 300..1e4 sd), all sign patterns
+        lo, hi = (300.0, 1e4) if tail == "x" else (38.0, 150.0)
+        ma, mb = (10 ** rng.uniform(math.log10(lo), math.log10(hi)) for _ in range(2))
+        sa = rng.choice([-1, 1])
+        sb = rng.choice([-1, 1]) if far is None else (-sa if (far == "opposite") == (r > 0) else sa)
+        # far == "opposite": the quadrant where h*k -> -inf after the r<0 reflection (masks hk > -100 and asr1 > -100 off)
+        za, zb = sa * ma, sb * mb
         z = [za, za + rng.uniform(0.1, 1), zb, zb + rng.uniform(0.1, 1)]
     else:
         w = rng.choice([0.3, 1.0, 2.5])
@@ -99,7 +112,7 @@ def _gauss_case(rng, cls, r=None, scale=None, tail=False):
             zb = (za if r > 0 else -za) + rng.uniform(0.01, 0.2)
         z = [za, za + abs(rng.gauss(0, w)) + 0.01, zb, zb + abs(rng.gauss(0, w)) + 0.01]
     box = [mx + sx * z[0], mx + sx * z[1], my + sy * z[2], my + sy * z[3]]
-    name = "g_tail" if tail else ("g_tiny" if scale == "tiny" else cls)
+    name = ("g_xtail" if tail == "x" else "g_tail") if tail else {"tiny": "g_tiny", "small": "g_smallvar"}.get(scale, cls)
     return {"cls": name, "kind": "gauss", "mu": [mx, my], "sigma": [sxx, sxy, syy], "box": box}
 
 
@@ -141,7 +154,7 @@ def _phi_case(rng):
 _TIER = {"tier": "quick"}
 # (quick, thorough) case counts per class; quick is sized for <= ~90 s wall on 16 cores
 COUNTS = {"g_high": (4, 100), "g_mid3": (3, 70), "g_mid6": (4, 90), "g_mid10": (4, 90), "g_zero": (3, 60),
-          "g_tail": (3, 60), "g_tiny": (3, 60), "u_exact": (8, 140), "u_tol": (4, 70), "normcdf": (4, 70)}
+          "g_tail": (4, 80), "g_xtail": (2, 40), "g_smallvar": (4, 80), "g_tiny": (3, 60), "u_exact": (8, 140), "u_tol": (4, 70), "normcdf": (4, 70)}
 MID = ["g_mid3", "g_mid6", "g_mid10"]
 
 
@@ -155,7 +168,14 @@ def generate(rng, tier):
     for _ in range(n["g_zero"]):
         cases.append(_zero_case(rng))
     for i in range(n["g_tail"]):
-        cases.append(_gauss_case(rng, (MID + ["g_high"])[i % 4] if tier == "quick" else rng.choice(MID + ["g_high"]), tail=True))
+        if i % 2 == 0:      # |r| >= 0.925, both coordinates 38..150 sd out, alternating quadrant patterns
+            cases.append(_gauss_case(rng, "g_high", tail=True, far=("opposite", "same")[(i // 2) % 2]))
+        else:
+            cases.append(_gauss_case(rng, rng.choice(MID + ["g_high"]), tail=True))
+    for i in range(n["g_xtail"]):
+        cases.append(_gauss_case(rng, "g_high" if i % 4 != 3 else rng.choice(MID), tail="x", far=("opposite", "same", "opposite", None)[i % 4]))
+    for _ in range(n["g_smallvar"]):
+        cases.append(_gauss_case(rng, "g_mid10", r=rng.choice([-1, 1]) * rng.uniform(0.85, 0.9249), scale="small"))
     for i in range(n["g_tiny"]):
         cases.append(_gauss_case(rng, (MID + ["g_high"])[(i + 1) % 4] if tier == "quick" else rng.choice(MID + ["g_high"]), scale="tiny"))
     for _ in range(n["u_exact"]):
@@ -180,7 +200,9 @@ def search_generate(rng, n):
         elif t == 8:
             out.append(_uniform_case(rng, rng.random() < 0.5))
         elif i % 20 == 9:
-            out.append(_gauss_case(rng, rng.choice(["g_mid6", "g_high"]), tail=True))
+            out.append(_gauss_case(rng, "g_high", tail=rng.choice([True, "x"]), far=rng.choice(["opposite", "same"])))
+        elif i % 20 == 19:
+            out.append(_gauss_case(rng, "g_mid10", r=rng.choice([-1, 1]) * rng.uniform(0.85, 0.9249), scale="small"))
         else:
             out.append(_gauss_case(rng, rng.choice(MID + ["g_high"]), scale="tiny"))
     return out
@@ -309,9 +331,9 @@ def predicate(c, o):
                 return False, "accuracy: value %r at (%r,%r), reference bivariate normal CDF %r (r=%r)" % (v, x, y, want, r)
             if c["sigma"][1] == 0.0 and abs(v - _phi(a) * _phi(b)) > 1e-12:
                 return False, "product: value %r is not Phi*Phi = %r" % (v, _phi(a) * _phi(b))
-            if (a <= -39 or b <= -39) and v > ROUND:
+            if (a <= -37.5 or b <= -37.5) and v > ROUND:
                 return False, "tail0: value %r at standardised (%r,%r) should vanish" % (v, a, b)
-            if a >= 39 and b >= 39 and v < 1 - ROUND:
+            if a >= 37.5 and b >= 37.5 and v < 1 - ROUND:
                 return False, "tail1: value %r at standardised (%r,%r) should be 1" % (v, a, b)
     v11, v21, v12, v22 = vals
     if v21 < v11 - MONO or v22 < v12 - MONO:
@@ -328,7 +350,7 @@ def nontrivial(c, o):
         return False
     if c["kind"] == "phi":
         return True
-    if c.get("cls") == "g_tail":
+    if c.get("cls") in ("g_tail", "g_xtail"):
         return True
     if c["kind"] == "uniform":
         return any(0 < v < 1 for v in o["vals"]) or c.get("cls") == "u_exact"
@@ -396,10 +418,12 @@ def _amplification(c):
 
 def _plan(c):
     """tactic for a Gaussian case, or a skip verdict"""
-    if c["sigma"][1] == 0.0:
-        return "gauss_case."
     xs, ys = _corners(c["box"])
     a, b, r = _std(c, xs[CERT_CORNER], ys[CERT_CORNER])
+    if c["sigma"][1] == 0.0:
+        return "gauss_case." if max(abs(a), abs(b)) <= 45 else "skip:point more than 45 sd out; covered by the numerical predicate"
+    if max(abs(a), abs(b)) > 45:
+        return "skip:point more than 45 sd out (normal CDF through RInt cannot be enclosed cheaply); covered by the numerical predicate"
     if abs(r) >= 0.925 and (a == b or a == -b):
         return "skip:h = +-k exactly (interval cannot enclose sqrt((h-k)^2) at 0); covered by the numerical predicate"
     amp = _amplification(c)
@@ -469,7 +493,7 @@ def coq_judge(cases, outs, results):
     seen_cls = {}
     for i in sorted(todo):
         c = cases[i]
-        if c["kind"] != "gauss" or c["sigma"][1] == 0.0 or c.get("cls") == "g_tail":
+        if c["kind"] != "gauss" or c["sigma"][1] == 0.0 or c.get("cls") in ("g_tail", "g_xtail"):
             continue
         key = c.get("cls")
         r = abs(_std(c, 0.0, 0.0)[2])
@@ -528,7 +552,16 @@ def coq_judge(cases, outs, results):
 
 
 def finding_of(case, out, detail):
-    # images_kernels.py:173 was repaired in /repo (fixes/C13_bvn_asr.patch); nothing is open
+    """images_kernels.py:173 (`asr > 100`) was repaired in /repo (fixes/C13_bvn_asr.patch).
+    Call site + signature of the far-tail defect (fixes/C13_bvn_far_tail_nan.patch): bvn_cdf lines 199-202 multiply
+    ep1 = exp(-hk(1-rs)/(2(1+rs)))/rs = inf by the 0/1 mask -> NaN, i.e. a NaN value at |r| >= 0.925 with h*k (after
+    the r<0 reflection) below -5e4.  Only attributed when known_findings.json has an OPEN entry with this id."""
+    if case.get("kind") == "gauss" and detail.startswith("nan") and case["sigma"][1] != 0.0:
+        xs, ys = _corners(case["box"])
+        for x, y, v in zip(xs, ys, out.get("vals", [])):
+            a, b, r = _std(case, x, y)
+            if v != v and abs(r) >= 0.925 and (a * b if r < 0 else -a * b) > 5e4:
+                return "C13-far-tail-nan"
     return None
 
 
